@@ -410,6 +410,16 @@ fn exec(line: &str) -> (String, Option<String>, bool) {
     INTRUDE.with(|i| i.set(intr));
     let obs = exec_mode(mode, &vs, &events, &mut verdict);
     INTRUDE.with(|i| i.set(false));
+    if intr && verdict.is_none() {
+        // isolation, stated directly: the same render with the same completion order, carried out alone
+        let mut v2 = None;
+        let alone = exec_mode(mode, &vs, &events, &mut v2);
+        if alone != obs {
+            let at = obs.char_indices().zip(alone.chars()).find(|((_, a), b)| a != b).map(|((i, _), _)| i).unwrap_or(obs.len().min(alone.len()));
+            verdict = Some(format!("[ssr-isolation] a {mode} render gives a different result when complete renders of other modes (of an unrelated view) run on the thread between its events: first difference at byte {at} of the observation (`…{}` with them, `…{}` alone)",
+                obs.chars().skip(at.saturating_sub(12)).take(40).collect::<String>(), alone.chars().skip(at.saturating_sub(12)).take(40).collect::<String>()));
+        }
+    }
     // the first render closure of the case belongs to `mode`
     if let Some(n) = NODE_COUNTS.with(|c| c.borrow().first().copied()) {
         let root_of = if mode.starts_with("blockdrop") { "block" } else { mode };
